@@ -625,3 +625,4 @@ PROPS["C06"]["rule"] += " One random history in four has the n-th (or every late
 PROPS["C02"]["rule"] += " RDNSS servers include the IPv4 unspecified, broadcast and loopback addresses, three IPv4-mapped spellings and four spellings of the :: wildcard."
 PROPS["C06"]["rule"] += " Thorough tier additionally: every history of exactly 5 events (solicitation from ::, from a host, link change) on the boundary grid {0, 1 ns, 3 s - 1 ns, 3 s, 3 s + 1 ns} (759 375 histories)."
 PROPS["C02"]["rule"] += " Wrong-type sweep: every key of every table (interface, prefix, route, rdnss, dnssl, pref64, debug) is given each of 24 values of every other TOML type (booleans, integers, floats incl. inf and nan, strings, arrays, inline tables, date-times): all must be rejected."
+PROPS["C02"]["rule"] += " Integers are written in every TOML spelling (decimal, 0x, 0o, 0b, digit separators, plus sign) and a third of the duration strings as TOML literal strings."
